@@ -73,7 +73,8 @@ pub open spec fn eff_threads(num_threads: usize) -> usize {
 """
 UNIT = dict(
     id="c05_solve_dispatch",
-    prelude=[],
+    prelude=["floats.rs"],
+    canary_use="broadcast use fl; ax_obeys();",
     assumptions=[
         "R5: NonZeroUsize is a stand-in struct with the documented new/checked_mul behaviour; thread::available_parallelism answers an arbitrary value; the six solver entry points are uninterpreted functions of (budget, threshold, parameters [, threads, target]) -- their bodies are the subject of the other properties",
         "the `?` operator converts the multi-threaded solvers' ThreadPoolBuildError with From::from (Rust semantics, trusted; this Verus does not expose the converted value)",
